@@ -14,7 +14,7 @@ NOTATIONS = ('polish', 'standard')
 RULE = ('each run = one generated argument (all fragments, 30% mutated library examples) in one of the 57 logics (stratified), '
         'finished normally or cut short at a seeded step limit (premature with a tree), under a seeded schedule; the finished '
         'tableau is rendered in every registered format (text, html, latex) x notation (polish, standard) with seeded writer '
-        'options (fulldoc, wrapper, inline_css, classes; drop_parens), twice each: no exception, identical output; the text '
+        'options (fulldoc, wrapper, inline_css, classes / wrap_classes as tuple, list, set or string), by long-lived writers that are all constructed first and then render in seeded interleavings, twice each, and by a fresh writer: no exception, identical output; the text '
         'rendering is parsed back into structures whose root-to-leaf token lists must equal, leaf by leaf in tree order, the '
         'tokens expected from the branch (written sentence, " w<k>", "[+]"/"[-]", "w<i>Rw<j>", exactly one "(x)" on closed '
         'branches and none on open ones). distinct_nontrivial = distinct (logic, outcome class, #branches>1, has access '
@@ -116,33 +116,60 @@ def tree_branches(tab):
     return out
 
 def check_render(tab, rng):
-    """None or (site, message)."""
+    """None or (site, message). Long-lived writers: all are constructed first (seeded order), then
+    each renders, then -- "an hour later" on the virtual wall clock, in another seeded order --
+    each renders again, and finally a fresh writer per combination renders "forty days later"."""
     outs = {}
-    for fmt in FORMATS:
-        for notn in NOTATIONS:
-            opts = {}
-            if fmt != 'text' and rng.random() < 0.5:
-                opts['fulldoc'] = rng.random() < 0.5
-            if fmt == 'html' and rng.random() < 0.5:
-                opts.update(wrapper=rng.random() < 0.5, inline_css=rng.random() < 0.3, classes=('x',) if rng.random() < 0.3 else ())
-            try:
-                # the second and third render happen "an hour later" on the virtual wall clock
-                with proofsim.WallClock() as wall:
-                    w = TabWriter(fmt, notn, **opts)
-                    a = w(tab)
-                    wall.advance()
-                    b = w(tab)
-                    wall.advance(86400.0 * 40)
-                    c = TabWriter(fmt, notn, **opts)(tab)
-            except Exception as e:
-                import traceback
-                site = proofcheck.raise_site(e)
-                return ('raises|%s|%s' % (fmt, site), 'rendering %s/%s (opts %s) raised %s: %s' % (fmt, notn, opts, type(e).__name__, e))
-            if not isinstance(a, str):
-                return ('not-text|' + fmt, 'writer returned %s' % type(a).__name__)
-            if a != b or a != c:
-                return ('nondeterministic|' + fmt, 'rendering %s/%s twice gives different output' % (fmt, notn))
-            outs[fmt, notn] = (a, w)
+    combos = [(fmt, notn) for fmt in FORMATS for notn in NOTATIONS]
+    optmap = {}
+    for fmt, notn in combos:
+        opts = {}
+        if fmt != 'text' and rng.random() < 0.5:
+            opts['fulldoc'] = rng.random() < 0.5
+        if fmt == 'html' and rng.random() < 0.6:
+            opts.update(wrapper=rng.random() < 0.6, inline_css=rng.random() < 0.3)
+            # class options in the container types callers use: tuple, list, set, string
+            r = rng.random()
+            if r < 0.5:
+                opts['classes'] = rng.choice((('x',), ['x'], ['x', 'y'], {'x'}, 'x y'))
+            if rng.random() < 0.3:
+                opts['wrap_classes'] = rng.choice((('z',), ['z'], ['z', 'w']))
+        optmap[fmt, notn] = opts
+    cur = None
+    try:
+        with proofsim.WallClock() as wall:
+            order = list(combos)
+            rng.shuffle(order)
+            writers = {}
+            for k in order:
+                cur = k
+                writers[k] = TabWriter(k[0], k[1], **optmap[k])
+            first, second, third = {}, {}, {}
+            rng.shuffle(order)
+            for k in order:
+                cur = k
+                first[k] = writers[k](tab)
+            wall.advance()
+            rng.shuffle(order)
+            for k in order:
+                cur = k
+                second[k] = writers[k](tab)
+            wall.advance(86400.0 * 40)
+            for k in order:
+                cur = k
+                third[k] = TabWriter(k[0], k[1], **optmap[k])(tab)
+    except Exception as e:
+        site = proofcheck.raise_site(e)
+        return ('raises|%s|%s' % (cur[0], site), 'rendering %s/%s (opts %s) raised %s: %s' % (cur[0], cur[1], optmap[cur], type(e).__name__, e))
+    for k in combos:
+        fmt, notn = k
+        a, b, c = first[k], second[k], third[k]
+        if not isinstance(a, str):
+            return ('not-text|' + fmt, 'writer returned %s' % type(a).__name__)
+        if a != b or a != c:
+            return ('nondeterministic|' + fmt, 'rendering %s/%s (opts %s) %s gives different output' % (
+                fmt, notn, optmap[k], 'twice with one writer' if a != b else 'with a long-lived and with a fresh writer'))
+        outs[fmt, notn] = (a, writers[k])
     for notn in NOTATIONS:
         text, w = outs['text', notn]
         try:
